@@ -13,7 +13,7 @@ func (p *Params) XmssNode(skSeed []byte, i uint32, z int, pkSeed []byte, adrs *A
 	adrs.SetTypeAndClear(TREE)
 	adrs.SetTreeHeight(uint32(z))
 	adrs.SetTreeIndex(i)
-	return p.H(pkSeed, adrs, concat(lnode, rnode))
+	return p.HashH(pkSeed, adrs, concat(lnode, rnode))
 }
 
 // XmssSign is FIPS 205 Algorithm 10. The result is
@@ -49,10 +49,10 @@ func (p *Params) XmssPKFromSig(idx uint32, sigXmss, m, pkSeed []byte, adrs *ADRS
 		var node1 []byte
 		if (idx>>uint(k))%2 == 0 {
 			adrs.SetTreeIndex(adrs.TreeIndex() / 2)
-			node1 = p.H(pkSeed, adrs, concat(node0, authK))
+			node1 = p.HashH(pkSeed, adrs, concat(node0, authK))
 		} else {
 			adrs.SetTreeIndex((adrs.TreeIndex() - 1) / 2)
-			node1 = p.H(pkSeed, adrs, concat(authK, node0))
+			node1 = p.HashH(pkSeed, adrs, concat(authK, node0))
 		}
 		node0 = node1
 	}
